@@ -355,6 +355,8 @@ func attribute(dir string, t *table, op opts, r *rtResult) (names []string, how 
 	other := "other"
 	if r.outcome == "refused_spellable" {
 		other = "refused_spellable"
+	} else if r.got != nil && r.exp != nil && len(r.got.rows) != len(r.exp.rows) {
+		other = "record_count" // records lost or invented, and no known cause explains it
 	}
 	if len(app) == 0 {
 		return []string{other}, "no-known-cause-present", 0
@@ -430,10 +432,15 @@ func rtRun(o *hc.Out, dir string, t *table, op opts, wantProc bool, tag string) 
 		names, how, trials = attribute(dir, t, op, r)
 		extra := map[string]interface{}{"failure": r.fail, "attribution": how, "causes": names}
 		if r.exp != nil {
-			extra["expected"] = r.exp.String()
+			extra["expected"] = clip(r.exp.String())
+			extra["expected_records"] = len(r.exp.rows)
 		}
 		if r.got != nil {
-			extra["loaded"] = r.got.String()
+			extra["loaded"] = clip(r.got.String())
+			extra["loaded_records"] = len(r.got.rows)
+			if r.exp != nil {
+				extra["first_middle_last"] = sampleRows(r.exp, r.got)
+			}
 		}
 		for _, n := range names {
 			lawFail(o, "roundtrip:"+name+":"+n, replay(extra))
@@ -446,6 +453,70 @@ func rtRun(o *hc.Out, dir string, t *table, op opts, wantProc bool, tag string) 
 	}
 	o.Case("c02.nop", "ok")
 	return r, names
+}
+
+func clip(s string) string {
+	if len(s) > 1500 {
+		return s[:1500] + "…"
+	}
+	return s
+}
+
+// sampleRows: first / middle / last record of what was expected and of what was loaded
+func sampleRows(exp, got *dtable) map[string]string {
+	pick := func(d *dtable) string {
+		if len(d.rows) == 0 {
+			return "(no records)"
+		}
+		s := &dtable{header: d.header, rows: [][]dcell{d.rows[0], d.rows[len(d.rows)/2], d.rows[len(d.rows)-1]}}
+		return s.String()
+	}
+	return map[string]string{"expected": pick(exp), "loaded": pick(got)}
+}
+
+var bigFormats = []option.Format{option.CSV, option.TSV, option.LTSV, option.FIXED, option.FIXED, option.JSONL, option.JSONL, option.JSON}
+
+// bigCase: the write-then-read law on tables of 280-700 records (the loaders prepare room for 300
+// records and re-allocate beyond that)
+func bigCase(g *hc.Gen, o *hc.Out, dir string) {
+	f := bigFormats[g.Intn(len(bigFormats))]
+	op := bigOpts(g, f)
+	t := genBigTable(g, genBigRows(g))
+	if f == option.FIXED && g.Intn(2) == 0 {
+		op.positions = writerPositionsPlain(t, op)
+	}
+	o.Count(fmt.Sprintf("big:%s:%s", fmtName(f), sizeBand(len(t.rows))))
+	rtRun(o, dir, t, op, g.Intn(5) == 0, "")
+}
+
+func sizeBand(n int) string {
+	switch {
+	case n < preparedCap:
+		return "below_cap"
+	case n == preparedCap:
+		return "at_cap"
+	case n <= preparedCap+80:
+		return "just_above_cap"
+	}
+	return "above_cap"
+}
+
+// writerPositionsPlain: explicit positions wide enough for every text (no inserted blanks)
+func writerPositionsPlain(t *table, o opts) []int {
+	var ps []int
+	pos := 0
+	for j := range t.header {
+		w := 1
+		if !o.withoutHeader {
+			w = max(w, text.ByteSize(t.header[j], o.enc))
+		}
+		for _, row := range t.rows {
+			w = max(w, text.ByteSize(row[j].text, o.enc))
+		}
+		pos += w + 1
+		ps = append(ps, pos)
+	}
+	return ps
 }
 
 func rtCase(g *hc.Gen, o *hc.Out, dir string) {
